@@ -41,7 +41,8 @@ TextForms == { [s |-> "{txt}",           slot |-> <<>>],
                [s |-> "{${1:a} x\ny}",   slot |-> <<F(1, "a")>>],                    \* the field is on an earlier line than the last
                [s |-> "{${2:p}\nq${1}}", slot |-> <<F(2, "p"), F(1, "")>>],
                [s |-> "{c\rd}",          slot |-> <<>>],
-               [s |-> "{a\n\nb}",        slot |-> <<>>] }                           \* an empty line in the middle of a text
+               [s |-> "{a\n\nb}",        slot |-> <<>>],
+               [s |-> "{${1:m\nn}z}",     slot |-> <<F(1, "m\nn")>>] }                  \* a placeholder that holds a line break                           \* an empty line in the middle of a text
 Names == {"x", "y"}
 
 Init == abbr = "" /\ ntok = 0 /\ expect = "item" /\ frames = << <<>> >> /\ pend = NoPend
